@@ -416,6 +416,24 @@ def gen_dupin_scripts(tier, seed):
     return scripts
 
 
+def gen_cookie_carrying_scripts(tier, seed):
+    """The tunnel's requests carry the session cookie of the browser that downloaded the file (legal, if unusual), and come
+    from another address than the token's; between the tunnel's HTTP request and its channel request the owner's browser
+    asks for /connect again from the token's address.  The address that counts is the tunnel request's own."""
+    scripts = []
+    for n in range(4 if tier == "quick" else 16):
+        tr = ["ws", "legacy"][n % 2]
+        cfg = {"tokenAuth": True, "smartCard": False, "auth": "openid", "sel": "roundrobin", "hosts": [["H1", ":", "PA"]], "verifyIp": True, "idle": 0,
+               "store": ["cookie", "file"][(n // 2) % 2]}
+        a, b = "10.3.%d.1" % n, "10.3.%d.2" % n
+        for k, (mint, use) in enumerate([(a, b), (a, a)]):
+            tun = {"user": "user1", "hostName": ["H1"], "hostPort": "PA", "entry": ["H1", ":", "PA"], "mintXFF": mint, "useXFF": use, "carryCookie": True}
+            steps = [{"k": "hs", "cls": "valid", "caps": 2, "major": 1, "minor": 0}, {"k": "ownerget"}, {"k": "create", "cls": "valid", "cookie": "good"}, {"k": "ownerget"},
+                     {"k": "auth", "cls": "valid"}, {"k": "ownerget"}, {"k": "chan", "cls": "valid", "name": ["H1"], "port": "PA"}, {"k": "data", "cls": "valid", "n": 8}]
+            scripts.append({"id": "cc%03d%d" % (n, k), "origin": "policy:cookie-carrying", "cfg": cfg, "transport": tr, "tun": tun, "steps": steps})
+    return scripts
+
+
 def gen_moved_client_scripts(tier, seed):
     """One logged-in session downloads connection files for the same host from several client addresses (a client that
     moved): every file's token is bound to the address IT was issued to, whatever the session's other tokens say."""
